@@ -2,7 +2,7 @@
 
 Real threads are used, but only the holder of the baton runs. A sys.settrace line tracer, active in frames of the
 code under test (dissect/cstruct/*, generated readers "<compiled ...>", generated methods "<string>"), counts every
-executed source line globally; a schedule is a map {global line step -> thread to switch to}. Without preemptions the
+executed source line (or, with opcodes=True, every executed bytecode instruction) globally; a schedule is a map {global line step -> thread to switch to}. Without preemptions the
 threads run one after the other (0, then 1, ...); a finished thread hands the baton to the lowest unfinished one.
 """
 from __future__ import annotations
@@ -19,11 +19,69 @@ class Stuck(Exception):
     pass
 
 
+class InstructionMonitor:
+    """sys.monitoring INSTRUCTION events for the code objects of the code under test (one schedule point before every
+    bytecode instruction). sys.settrace with f_trace_opcodes is not usable here: every sys.settrace() call of a further
+    thread re-instruments code while another thread is parked inside a callback, which crashes CPython 3.12.1. The local
+    events are installed once per case, while no scheduled thread exists, and removed afterwards."""
+
+    TOOL = 4
+    threads = {}  # thread ident -> (scheduler, thread index)
+    _codes = []
+
+    @classmethod
+    def _dispatch(cls, code, offset):
+        ent = cls.threads.get(threading.get_ident())
+        if ent is not None:
+            ent[0]._point(ent[1], None, code, offset)
+
+    @classmethod
+    def install(cls):
+        import gc
+        import types
+
+        mon = sys.monitoring
+        cls.uninstall()
+        mon.use_tool_id(cls.TOOL, "verif-sched")
+        mon.register_callback(cls.TOOL, mon.events.INSTRUCTION, cls._dispatch)
+        seen = set()
+
+        def walk(co):
+            if id(co) in seen:
+                return
+            seen.add(id(co))
+            if _traced(co.co_filename):
+                cls._codes.append(co)
+            for c in co.co_consts:
+                if isinstance(c, types.CodeType):
+                    walk(c)
+
+        for o in gc.get_objects():
+            if isinstance(o, types.FunctionType):
+                walk(o.__code__)
+        for co in cls._codes:
+            mon.set_local_events(cls.TOOL, co, mon.events.INSTRUCTION)
+        return len(cls._codes)
+
+    @classmethod
+    def uninstall(cls):
+        mon = sys.monitoring
+        if mon.get_tool(cls.TOOL) is None:
+            return
+        for co in cls._codes:
+            mon.set_local_events(cls.TOOL, co, 0)
+        cls._codes = []
+        mon.register_callback(cls.TOOL, mon.events.INSTRUCTION, None)
+        mon.free_tool_id(cls.TOOL)
+
+
 class Scheduler:
-    def __init__(self, n, preempt=None, record=False):
+    def __init__(self, n, preempt=None, record=False, opcodes=False):
         self.n = n
+        self.opcodes = opcodes  # True: a schedule point before every bytecode instruction instead of every source line
         self.preempt = dict(preempt or {})
         self.sems = [threading.Semaphore(0) for _ in range(n)]
+        self._ready = threading.Semaphore(0)
         self.alive = [True] * n
         self.step = 0
         self.switches = []  # (step, from, to, "file:line")
@@ -32,14 +90,16 @@ class Scheduler:
         self.steps_of = [0] * n
         self.trace = []  # when recording: (global step, thread, "file:function")
 
-    def _point(self, idx, frame):
+    def _point(self, idx, frame, code=None, offset=None):
         self.step += 1
         self.steps_of[idx] += 1
+        code = code if code is not None else frame.f_code
         if self.record:
-            self.trace.append((self.step, idx, f"{frame.f_code.co_filename.rsplit('/', 1)[-1]}:{frame.f_code.co_name}"))
+            self.trace.append((self.step, idx, f"{code.co_filename.rsplit('/', 1)[-1]}:{code.co_name}"))
         tgt = self.preempt.get(self.step)
         if tgt is not None and tgt != idx and self.alive[tgt]:
-            self.switches.append((self.step, idx, tgt, f"{frame.f_code.co_filename.rsplit('/', 1)[-1]}:{frame.f_lineno}"))
+            where = f"{frame.f_lineno}" if frame is not None else f"{code.co_name}+{offset}"
+            self.switches.append((self.step, idx, tgt, f"{code.co_filename.rsplit('/', 1)[-1]}:{where}"))
             self.sems[tgt].release()
             self.sems[idx].acquire()
 
@@ -57,14 +117,21 @@ class Scheduler:
         return glob
 
     def _body(self, idx, thunk):
+        if self.opcodes:
+            # instruction granularity: the events come from sys.monitoring (InstructionMonitor, installed by the caller for
+            # the code objects of the code under test); this thread only has to be known to the dispatcher
+            InstructionMonitor.threads[threading.get_ident()] = (self, idx)
+        self._ready.release()
         self.sems[idx].acquire()
-        sys.settrace(self._tracer(idx))
+        if not self.opcodes:
+            sys.settrace(self._tracer(idx))
         try:
             self.results[idx] = ("ok", thunk())
         except BaseException as e:  # noqa: BLE001 - the outcome of the thread, judged by the oracle
             self.results[idx] = ("exc", type(e).__name__, str(e)[:160])
         finally:
             sys.settrace(None)
+            InstructionMonitor.threads.pop(threading.get_ident(), None)
             self.alive[idx] = False
             nxt = next((j for j in range(self.n) if self.alive[j]), None)
             if nxt is not None:
@@ -74,6 +141,9 @@ class Scheduler:
         threads = [threading.Thread(target=self._body, args=(i, t), daemon=True) for i, t in enumerate(thunks)]
         for t in threads:
             t.start()
+        for _ in threads:
+            if not self._ready.acquire(timeout=timeout):
+                raise Stuck("a scheduled thread did not start (harness error)")
         self.sems[0].release()
         for t in threads:
             t.join(timeout)
